@@ -17,22 +17,23 @@ Proof. intros n Hn. unfold target_is. exact (line_literal_all n Hn). Qed.
 Section EndToEnd.
 Variable O : oracle.
 
-(* Compile the parsed lines, link, start at the first line with empty variables: however the reference semantics says
-   the run ends -- END reached with variable store V, or error c -- the VM, given enough instructions, stops with the
-   same variable store, or reports the same error. *)
+(* Compile the parsed lines, link, start at the first line with empty variables and the cursor at the left margin: however
+   the reference semantics says the run goes -- texts printed, then END reached with variable store V, or error c -- the VM,
+   given enough instructions, prints the same texts in the same order and then stops with the same variable store, or
+   reports the same error. *)
 Theorem compiled_program_follows_semantics : forall srcl pls dp lo n ss rest inputs fuel r,
   Forall2 lmatch srcl pls -> ascending pls lo -> last_is_end (prog_ops pls) = true -> last_nonempty pls ->
   r_slen r + lenN (prog_ops pls) <= MAX_POOL ->
   srcl = (n, ss) :: rest ->
-  r_prog r = program_link (compile_asts srcl dp) -> r_pc r = 0 -> r_vars r = vars_empty -> r_tron r = false ->
-  final O (run O srcl fuel (tag_line n ss, n) (sem_start false inputs)) r.
+  r_prog r = program_link (compile_asts srcl dp) -> r_pc r = 0 -> r_vars r = vars_empty -> r_tron r = false -> r_col r = 0 ->
+  final O (sem_start false inputs) (run O srcl fuel (tag_line n ss, n) (sem_start false inputs)) r.
 Proof.
-  intros srcl pls dp lo n ss rest inputs fuel r Hm Ha Hend Hne Hfit Es Hprog Hpc Hv Ht.
+  intros srcl pls dp lo n ss rest inputs fuel r Hm Ha Hend Hne Hfit Es Hprog Hpc Hv Ht Hc.
   assert (Hsz : lenN (l_ops (layout pls dp)) <= MAX_POOL) by (rewrite layout_ops; lia).
   destruct (compile_is_layout srcl pls dp (lmatch_flayout srcl pls Hm) Hsz) as (HL & _ & Hd & _).
   destruct (link_layout (compile_asts srcl dp) pls dp lo HL Hd Ha Hend Hne) as (Hops & _).
   apply (vm_follows_sem O srcl pls lo (r_slen r) Hm Ha Hend Hne Hfit).
-  apply (start_related srcl pls lo (r_slen r) Hm Ha Hend Hne Hfit n ss rest inputs r Es Hpc Hv Ht eq_refl).
+  apply (start_related srcl pls lo (r_slen r) Hm Ha Hend Hne Hfit n ss rest inputs r Es Hpc Hv Ht eq_refl Hc).
   intros a op Hop. rewrite Hprog, Hops. exact Hop.
 Qed.
 
@@ -45,18 +46,21 @@ Definition parse_src (s : string) : option (N * list stmt) :=
   | _ => None
   end.
 
-Definition demo_text : list string := ["10 A=2"; "20 ON A GOTO 10,40"; "30 GOTO 10"; "40 END"]%string.
+Definition demo_text : list string := ["10 A=2"; "20 ON A GOTO 10,40"; "30 GOTO 10"; "40 PRINT A;""X"""; "50 END"]%string.
+Definition demo_items : list expr := [EUnary (6, 7) (IPlain [65]); EStr (8, 11) [88]; EStr (11, 11) [10]].
 Definition demo_src : program_t :=
   [(10, [SLet (0, 1) (VUnary (0, 1) (IPlain [65])) (EInt (2, 3) 2)]);
    (20, [SOnGoto (0, 2) (EUnary (3, 4) (IPlain [65])) [ESng (10, 12) (f32_of_Z 10); ESng (13, 15) (f32_of_Z 40)]]);
    (30, [SGoto (0, 4) (ESng (5, 7) (f32_of_Z 10))]);
-   (40, [SEnd (0, 3)])].
+   (40, [SPrint (0, 5) demo_items]);
+   (50, [SEnd (0, 3)])].
 Definition demo_targets : list tgt := [((10, 12), f32_of_Z 10, 10); ((13, 15), f32_of_Z 40, 40)].
 Definition demo_pieces : list pline :=
   [(10, [mkPiece (let_code (IPlain [65]) (EInt (2, 3) 2)) [] 0]);
    (20, [mkPiece (on_code (EUnary (3, 4) (IPlain [65])) demo_targets) (jump_refs (2 + lenN (postfix (EUnary (3, 4) (IPlain [65])))) demo_targets) (-1)]);
    (30, [mkPiece [OpJump 0] [(0, ((5, 7), Z.of_N 10))] 0]);
-   (40, [mkPiece [OpEnd] [] 0])].
+   (40, [mkPiece (print_code demo_items) [] 0]);
+   (50, [mkPiece [OpEnd] [] 0])].
 
 (* the model's lexer and parser produce exactly this program from the text *)
 Example demo_is_parsed : map parse_src demo_text = map Some demo_src.
@@ -71,12 +75,13 @@ Proof.
   split; [| split; [| split; [| split]]].
   - assert (one : forall n s p, gstmt s p -> lmatch (n, [s]) (n, [p])).
     { intros n s p H. split; [reflexivity |]. cbn [snd]. constructor; [exact H | constructor]. }
-    unfold demo_src, demo_pieces. constructor; [apply one | constructor; [apply one | constructor; [apply one | constructor; [apply one | constructor]]]].
+    unfold demo_src, demo_pieces. constructor; [apply one | constructor; [apply one | constructor; [apply one | constructor; [apply one | constructor; [apply one | constructor]]]]].
     + apply gs_let; [reflexivity | reflexivity | cbn; lia].
     + apply (gs_on (0, 2) (EUnary (3, 4) (IPlain [65])) demo_targets); [reflexivity | cbn; lia | | | vm_compute; discriminate].
       * repeat constructor; assumption.
       * repeat constructor; assumption.
     + apply (gs_goto (0, 4) (5, 7) (f32_of_Z 10) 10); assumption.
+    + apply gs_print; [discriminate | reflexivity | repeat constructor; cbn; lia].
     + apply gs_end.
   - cbn. lia.
   - reflexivity.
@@ -84,16 +89,28 @@ Proof.
   - vm_compute. discriminate.
 Qed.
 
-(* and the reference semantics runs it to END with A = 2 (the ON takes the second branch) *)
-Example demo_runs : forall O, exists st, run O demo_src 10 (tag_line 10 [SLet (0, 1) (VUnary (0, 1) (IPlain [65])) (EInt (2, 3) 2)], 10) (sem_start false []) = (st, HEnd).
-Proof. intros O. eexists. vm_compute. reflexivity. Qed.
+(* and the reference semantics runs it to END with A = 2 (the ON takes the second branch), printing " 2 ", "X" and a newline *)
+Example demo_runs : forall O, exists st,
+  run O demo_src 10 (tag_line 10 [SLet (0, 1) (VUnary (0, 1) (IPlain [65])) (EInt (2, 3) 2)], 10) (sem_start false []) = (st, HEnd)
+  /\ s_out st = [SePrint [10]; SePrint [88]; SePrint [32; 50; 32]].
+Proof. intros O. eexists. vm_compute. split; reflexivity. Qed.
 
-(* so the theorem says something about it: the VM, started on the compiled and linked demo program, stops at END *)
-Example demo_vm_stops : forall O r dp,
-  r_prog r = program_link (compile_asts demo_src dp) -> r_pc r = 0 -> r_vars r = vars_empty -> r_tron r = false -> r_slen r = 0 ->
-  exists m r', exec_loop_x O m false r = (r', Ok (Some EvStopped)).
+Lemma map_SePrint_inj : forall a b : list str, map SePrint a = map SePrint b -> a = b.
 Proof.
-  intros O r dp Hprog Hpc Hv Ht Hs. destruct demo_meets_premises as (Hm & Ha & Hend & Hne & Hfit). rewrite <- Hs in Hfit.
-  pose proof (compiled_program_follows_semantics O demo_src demo_pieces dp 0 _ _ _ [] 10 r Hm Ha Hend Hne Hfit eq_refl Hprog Hpc Hv Ht) as H.
-  destruct (demo_runs O) as [st Hst]. rewrite Hst in H. destruct H as (m & r' & Hrun & _). exists m, r'. exact Hrun.
+  induction a as [| x a IH]; intros [| y b] H; try discriminate; [reflexivity |]. cbn [map] in H. injection H as -> H. f_equal. exact (IH b H).
+Qed.
+
+(* so the theorem says something about it: the VM, started on the compiled and linked demo program, prints the same three
+   texts in that order and stops at END *)
+Example demo_vm_prints : forall O r dp,
+  r_prog r = program_link (compile_asts demo_src dp) -> r_pc r = 0 -> r_vars r = vars_empty -> r_tron r = false -> r_slen r = 0 -> r_col r = 0 ->
+  exists r1 m r', vm_steps O r [[32; 50; 32]; [88]; [10]] r1 /\ exec_loop_x O m false r1 = (r', Ok (Some EvStopped)).
+Proof.
+  intros O r dp Hprog Hpc Hv Ht Hs Hc. destruct demo_meets_premises as (Hm & Ha & Hend & Hne & Hfit). rewrite <- Hs in Hfit.
+  pose proof (compiled_program_follows_semantics O demo_src demo_pieces dp 0 _ _ _ [] 10 r Hm Ha Hend Hne Hfit eq_refl Hprog Hpc Hv Ht Hc) as H.
+  destruct (demo_runs O) as [st [Hst Hout]]. rewrite Hst in H. destruct H as (outs & r1 & m & r' & Hsteps & Hpr & Hstop & _).
+  unfold printed in Hpr. rewrite Hout in Hpr. cbn [sem_start s_out] in Hpr. rewrite app_nil_r in Hpr.
+  assert (Eo : outs = [[32; 50; 32]; [88]; [10]]).
+  { apply map_SePrint_inj. apply (f_equal (@rev sevent)) in Hpr. rewrite rev_involutive in Hpr. symmetry. exact Hpr. }
+  subst outs. exists r1, m, r'. split; assumption.
 Qed.
